@@ -76,7 +76,8 @@ PROPS["C07"] = {
 
 PROPS["C04"] = {
     "module": "PropC04",
-    "theorems": ["C04_threshold", "C04_coherence_range", "C04_percents", "C04_f32_not_ge_lt"],
+    "theorems": ["C04_threshold", "C04_coherence_range", "C04_percents", "C04_f32_not_ge_lt",
+                 "C04_threshold_binary32", "C04_coherence_range_binary32", "C04_float_laws_hold_for_binary32"],
     "runs": [detect_run("C04", 300, 5000, bigq=1, bigt=8)],
     "search": detect_search("C04"),
     "rule": DETECT_RULE + "; thresholds drawn from {0, 0.01, 0.02, 0.05, 0.1, 0.2, 0.3, 0.5, 0.8, 1} and their binary32 neighbours, "
@@ -85,27 +86,25 @@ PROPS["C04"] = {
     "assumptions": ["MessOK: mess_ratio returns a non-NaN non-negative f32 (asserted on every oracle answer)",
                     "MergeOK: merged language scores are non-NaN and in [0,1] (asserted on every oracle answer)",
                     "DecodeLen: a strict decode yields at most one character per byte (asserted on every oracle answer)",
-                    "FloatLaws (Proofs/FloatLaws.v): law_not_ge_lt is proved of the Flocq binary32 instance (C04_f32_not_ge_lt); "
-                    "law_mean_good / law_mean_single / law_self_close are hypotheses of the theorem, exercised bit-exactly by the extracted "
-                    "Flocq arithmetic on every correspondence case but not yet proved in Coq",
+                    "FloatLaws (Proofs/FloatLaws.v) is a hypothesis of the generic theorems and is PROVED of the Flocq binary32 instance "
+                    "(Proofs/F32Laws.v: mean of good values is good, (-0+x)/1 = x, |x-x| < eps, ...): the *_binary32 theorems assume nothing about floats",
                     "len b < 2^64 and threshold not NaN (the property's own well-formedness)"],
-    "trusted": [],
+    "trusted": ["Flocq's 4 standard axioms (sig_forall_dec, sig_not_dec, functional_extensionality_dep, classic) under the *_binary32 theorems"],
 }
 
 
 PROPS["C13"] = {
     "module": "PropC13",
-    "theorems": ["C13_covering_windows_agree", "C13_chaos_function", "C13_same_text_same_chaos"],
+    "theorems": ["C13_covering_windows_agree", "C13_chaos_function", "C13_same_text_same_chaos", "C13_chaos_function_binary32"],
     "runs": [detect_run("C13", 260, 4000)],
     "search": detect_search("C13"),
     "rule": DETECT_RULE + "; focus C13: every case that fits its window is re-run with (1, len) and another random covering pair; "
             "and >= 60 texts are encoded into every supported encoding that round-trips them (with / without BOM), probed alone with "
             "the fall-back off and a covering window: accept / reject and chaos bits must coincide",
     "assumptions": ["DecodeLen: at most one character per byte (asserted on every oracle answer)",
-                    "FloatLaws.law_mean_single ((-0 + x) / 1 = x) is a hypothesis of C13_chaos_function; it is exercised bit-exactly by the "
-                    "extracted Flocq arithmetic on every single-chunk correspondence case",
+                    "FloatLaws is a hypothesis of the generic C13_chaos_function and proved of binary32 (C13_chaos_function_binary32 assumes no float law)",
                     "inputs up to TOO_BIG_SEQUENCE for the chaos statement; the window statement has no size bound"],
-    "trusted": [],
+    "trusted": ["Flocq's 4 standard axioms under the *_binary32 theorems only"],
 }
 
 
@@ -130,7 +129,8 @@ PROPS["C02"] = {
 PROPS["C08"] = {
     "module": "PropC08",
     "theorems": ["C08_container_invariant", "C08_detection_results_ranked", "C08_dominant_first", "C08_dominated_last",
-                 "C08_get_best_first", "C08_prefers_is_two_sided", "C08_f32_order_total", "C08_sort_is_permutation"],
+                 "C08_get_best_first", "C08_prefers_is_two_sided", "C08_f32_order_total", "C08_sort_is_permutation",
+                 "C08_prefers_is_two_sided_binary32", "C08_cmp_laws_hold_for_binary32"],
     "model_targets": ["Model/Matches.vo"],
     "runs": [{"level": "container", "args_quick": ["--n", "500"], "args_thorough": ["--n", "40000"]},
              detect_run("C08", 150, 3000)],
@@ -143,9 +143,9 @@ PROPS["C08"] = {
             "restatement of the documented rule; non-trivial = containers with >= 2 items",
     "assumptions": ["sort_unstable = insertion sort for len <= 20 (exact, core::slice::sort::unstable); above 20 the std algorithm is not "
                     "modelled: the theorem is then about the model only and the tie is the implementation-side dominance check",
-                    "CmpLaws.law_abs_sub_sym (|x-y| = |y-x| in binary32) is a hypothesis of C08_prefers_is_two_sided; the theorems "
-                    "C08_dominant_first / C08_dominated_last themselves take the two-sided condition and assume nothing"],
-    "trusted": ["Flocq's 4 standard axioms under C08_f32_order_total only"],
+                    "CmpLaws (|x-y| = |y-x|, totality of the OrderedFloat order) is a hypothesis of the generic C08_prefers_is_two_sided and is "
+                    "proved of binary32 (C08_cmp_laws_hold_for_binary32); C08_dominant_first / C08_dominated_last take the two-sided condition and assume nothing"],
+    "trusted": ["Flocq's 4 standard axioms under C08_f32_order_total and the *_binary32 theorems"],
 }
 
 
@@ -184,7 +184,7 @@ PROPS["C06"] = {
 
 PROPS["C10"] = {
     "module": "PropC10",
-    "theorems": ["C10_partition", "C10_lookup", "C10_languages", "C10_most_probable_language", "C10_unicode_ranges"],
+    "theorems": ["C10_partition", "C10_lookup", "C10_languages", "C10_most_probable_language", "C10_unicode_ranges", "C10_partition_binary32"],
     "runs": [detect_run("C10", 300, 5000), {"level": "container", "args_quick": ["--n", "200"], "args_thorough": ["--n", "5000"]}],
     "search": detect_search("C10"),
     "rule": DETECT_RULE + "; every result is checked for: no encoding twice, alternatives share text and chaos with their match, distinct "
@@ -192,9 +192,9 @@ PROPS["C10"] = {
             "stated cases, unicode_ranges sorted / duplicate free / equal to the per-character union, lookup by every candidate name "
             "and by every label of a 66-spelling pool that canonicalises to it",
     "assumptions": ["inputs up to TOO_BIG_SEQUENCE for the partition statement (as the property)",
-                    "CmpLaws.law_abs_sub_sym (|x-y| = |y-x|) is a hypothesis of C10_partition",
+                    "CmpLaws is a hypothesis of the generic C10_partition and proved of binary32 (C10_partition_binary32 assumes no float law)",
                     "MergeNoDup / MergeSub / CohInclude contracts on the coherence oracles (asserted on every real answer; refined by the Cd model)"],
-    "trusted": [],
+    "trusted": ["Flocq's 4 standard axioms under the *_binary32 theorems only"],
 }
 
 
@@ -203,7 +203,7 @@ CD_RUN = {"level": "cd", "args_quick": ["--n", "500"], "args_thorough": ["--n", 
 PROPS["C19"] = {
     "module": "PropC19",
     "theorems": ["C19_threshold_is_a_cutoff", "C19_listed_iff_reaches", "C19_raising_only_removes", "C19_ordered_by_score",
-                 "C19_single_chunk", "C19_coherence_is_first_score"],
+                 "C19_single_chunk", "C19_coherence_is_first_score", "C19_ordered_by_score_binary32", "C19_single_chunk_binary32"],
     "model_targets": ["Model/Cd.vo"],
     "runs": [CD_RUN, detect_run("C19", 150, 2500)],
     "search": {"level": "cd", "args": ["--n", "8000"]},
@@ -213,9 +213,9 @@ PROPS["C19"] = {
             "functions, bit for bit; on the implementation each text is swept over 8 thresholds: the list at threshold t must be "
             "exactly the threshold-0 list cut at t (same scores), ordered by non-increasing score, and never gain a language; merge and "
             "filter_alt on random lists (ties, NaN); non-trivial = texts with at least one language listed",
-    "assumptions": ["CmpLaws.law_oge_total is proved of the Flocq instance; FloatLaws.law_mean_single ((-0+x)/1 = x) is a hypothesis of C19_single_chunk",
+    "assumptions": ["CmpLaws / FloatLaws are hypotheses of the generic theorems and proved of binary32 (the *_binary32 theorems assume no float law)",
                     "alpha_unicode_split, alphabet_languages and characters_popularity_compare (jaro) are oracles"],
-    "trusted": [],
+    "trusted": ["Flocq's 4 standard axioms under the *_binary32 theorems only"],
 }
 
 PROPS["C03"] = {
